@@ -38,7 +38,7 @@ pub fn translate_target(idx: &Index, reg: &Registry, t: &Target, texts: &BTreeMa
 
 fn dummy_fn(module: &str, self_ty: Option<String>) -> FnEntry {
     let f: syn::ItemFn = syn::parse_str("fn __dummy() {}").unwrap();
-    FnEntry { path: format!("{}::__dummy", module), self_ty, sig: f.sig, block: *f.block, module: module.to_string() }
+    FnEntry { path: format!("{}::__dummy", module), self_ty, sig: f.sig, block: *f.block, module: module.to_string(), impl_generics: None }
 }
 
 fn new_tr<'a>(idx: &'a Index, reg: &'a Registry, cur: &'a FnEntry) -> Tr<'a> {
@@ -79,7 +79,11 @@ fn translate_struct(idx: &Index, reg: &Registry, t: &Target) -> R<String> {
     tr.generics = st.generics.type_params().map(|p| p.ident.to_string()).collect();
     let mut out = String::new();
     writeln!(out, "/-- Rust: `struct {}` ({}) -/", name, path).unwrap();
-    let gens: String = tr.generics.iter().map(|g| format!(" ({} : Type)", g)).collect();
+    let mut gens: String = tr.generics.iter().map(|g| format!(" ({} : Type)", g)).collect();
+    tr.const_generics = st.generics.const_params().map(|p| p.ident.to_string()).collect();
+    for c in &tr.const_generics {
+        write!(gens, " ({} : Nat)", lean_ident(c)).unwrap();
+    }
     writeln!(out, "structure {}{} where", t.lean_name, gens).unwrap();
     for (i, f) in st.fields.iter().enumerate() {
         let fty = tr.conv_ty(&f.ty);
@@ -89,7 +93,7 @@ fn translate_struct(idx: &Index, reg: &Registry, t: &Target) -> R<String> {
         };
         writeln!(out, "  {} : {}", fname, tr.lean_ty(&fty).map_err(|e| format!("field {}: {}", fname, e))?).unwrap();
     }
-    if tr.generics.is_empty() {
+    if tr.generics.is_empty() && tr.const_generics.is_empty() {
         writeln!(out, "deriving Repr, DecidableEq").unwrap();
     }
     Ok(out)
@@ -145,6 +149,18 @@ fn translate_const(idx: &Index, reg: &Registry, t: &Target) -> R<String> {
     tr.resolve_placeholders(&text)
 }
 
+pub fn all_type_params(f: &FnEntry) -> Vec<String> {
+    let mut v: Vec<String> = f.impl_generics.iter().flat_map(|g| g.type_params().map(|p| p.ident.to_string())).collect();
+    v.extend(f.sig.generics.type_params().map(|p| p.ident.to_string()));
+    v
+}
+
+pub fn all_const_params(f: &FnEntry) -> Vec<String> {
+    let mut v: Vec<String> = f.impl_generics.iter().flat_map(|g| g.const_params().map(|p| p.ident.to_string())).collect();
+    v.extend(f.sig.generics.const_params().map(|p| p.ident.to_string()));
+    v
+}
+
 /// generic parameters bounded by konst's `Pattern` / `BytesPattern` traits
 pub fn pattern_generics(g: &syn::Generics) -> Vec<String> {
     fn is_pat_bound(b: &syn::TypeParamBound) -> bool {
@@ -190,8 +206,8 @@ fn translate_fn(idx: &Index, reg: &Registry, t: &Target, texts: &BTreeMap<String
     let f = &idx.fns[fi];
     let rf = reg.fns.get(&fi).ok_or("internal: target not registered")?;
     let mut tr = new_tr(idx, reg, f);
-    tr.generics = f.sig.generics.type_params().map(|p| p.ident.to_string()).collect();
-    tr.const_generics = f.sig.generics.const_params().map(|p| p.ident.to_string()).collect();
+    tr.generics = all_type_params(f);
+    tr.const_generics = all_const_params(f);
     tr.pattern_generics = pattern_generics(&f.sig.generics);
     tr.generics.retain(|g| !tr.pattern_generics.contains(g));
     if !tr.pattern_generics.is_empty() {
